@@ -6,8 +6,8 @@
    multiplication algorithms, modular inverse, the 10x26 / 8x32 / struct-int128 / asm configurations,
    SHA-256/HMAC/RFC 6979) is tied by the differential correspondence of ./check C05 on a build matrix. *)
 From Coq Require Import ZArith List Bool.
-Require Import Kernel.CSem Kernel.Field5x52 Kernel.Field5x52Sqr Kernel.CtPrimitives Kernel.FieldNormalize Kernel.Scalar4x64 Kernel.ScalarMul512 Kernel.ScalarSqr512 Kernel.ScalarReduce512 Kernel.Scalar8x32Check Kernel.Scalar8x32Mul512 Kernel.Scalar8x32Reduce512 Kernel.Scalar8x32Mul Kernel.FieldPrims Kernel.ScalarMul4x64 Kernel.ScalarMul Kernel.ScalarAdd Kernel.FieldNormalize2 Kernel.MorePrims.
-Require Import Gen.fe_mul_inner Gen.fe_sqr_inner Gen.scalar_cmov Gen.fe_impl_cmov Gen.fe_impl_normalize Gen.scalar_check_overflow Gen.scalar_is_high Gen.scalar_mul_512 Gen.scalar_sqr_512 Gen.scalar_reduce_512 Gen.scalar8x32_mul_512 Gen.scalar8x32_sqr_512 Gen.scalar8x32_check_overflow Gen.scalar8x32_reduce_512 Gen.scalar8x32_mul Gen.scalar8x32_sqr Gen.scalar_mul_512b Gen.scalar_sqr_512b Gen.scalar_mul Gen.scalar_sqr Gen.scalar_add Gen.scalar_half Gen.fe_impl_normalize_weak Gen.fe_impl_normalizes_to_zero Gen.fe_impl_mul_int_unchecked Gen.fe_impl_to_storage Gen.fe_impl_from_storage Gen.scalar_cond_negate Gen.fe_impl_add Gen.fe_impl_negate_unchecked Gen.fe_impl_half Gen.scalar_negate.
+Require Import Kernel.CSem Kernel.Field5x52 Kernel.Field5x52Sqr Kernel.CtPrimitives Kernel.FieldNormalize Kernel.Scalar4x64 Kernel.ScalarMul512 Kernel.ScalarSqr512 Kernel.ScalarReduce512 Kernel.Scalar8x32Check Kernel.Scalar8x32Mul512 Kernel.Scalar8x32Reduce512 Kernel.Scalar8x32Mul Kernel.FieldPrims Kernel.ScalarMul4x64 Kernel.ScalarMul Kernel.ScalarAdd Kernel.FieldNormalize2 Kernel.MorePrims Kernel.FieldSetB32.
+Require Import Gen.fe_mul_inner Gen.fe_sqr_inner Gen.scalar_cmov Gen.fe_impl_cmov Gen.fe_impl_normalize Gen.scalar_check_overflow Gen.scalar_is_high Gen.scalar_mul_512 Gen.scalar_sqr_512 Gen.scalar_reduce_512 Gen.scalar8x32_mul_512 Gen.scalar8x32_sqr_512 Gen.scalar8x32_check_overflow Gen.scalar8x32_reduce_512 Gen.scalar8x32_mul Gen.scalar8x32_sqr Gen.scalar_mul_512b Gen.scalar_sqr_512b Gen.scalar_mul Gen.scalar_sqr Gen.scalar_add Gen.scalar_half Gen.fe_impl_normalize_weak Gen.fe_impl_normalizes_to_zero Gen.fe_impl_mul_int_unchecked Gen.fe_impl_to_storage Gen.fe_impl_from_storage Gen.scalar_cond_negate Gen.fe_impl_set_b32_limit Gen.fe_impl_add Gen.fe_impl_negate_unchecked Gen.fe_impl_half Gen.scalar_negate.
 Import ListNotations.
 Local Open Scope Z_scope.
 
@@ -143,6 +143,16 @@ Theorem scalar8x32_sqr_correct : forall a0 a1 a2 a3 a4 a5 a6 a7,
   scalar8x32_sqr_k a0 a1 a2 a3 a4 a5 a6 a7 Q.
 Proof. exact Kernel.Scalar8x32Mul.scalar8x32_sqr_correct. Qed.
 Print Assumptions scalar8x32_sqr_correct.
+(* Parsing a 32-byte big-endian string into a field element with the range check that every public-key / x-only / generator /
+   commitment parser relies on: the limbs hold exactly the value, the return value is 1 exactly below p. *)
+Theorem fe_set_b32_limit_correct : forall a0 a1 a2 a3 a4 a5 a6 a7 a8 a9 a10 a11 a12 a13 a14 a15 a16 a17 a18 a19 a20 a21 a22 a23 a24 a25 a26 a27 a28 a29 a30 a31,
+  0 <= a0 < 256 -> 0 <= a1 < 256 -> 0 <= a2 < 256 -> 0 <= a3 < 256 -> 0 <= a4 < 256 -> 0 <= a5 < 256 -> 0 <= a6 < 256 -> 0 <= a7 < 256 -> 0 <= a8 < 256 -> 0 <= a9 < 256 -> 0 <= a10 < 256 -> 0 <= a11 < 256 -> 0 <= a12 < 256 -> 0 <= a13 < 256 -> 0 <= a14 < 256 -> 0 <= a15 < 256 -> 0 <= a16 < 256 -> 0 <= a17 < 256 -> 0 <= a18 < 256 -> 0 <= a19 < 256 -> 0 <= a20 < 256 -> 0 <= a21 < 256 -> 0 <= a22 < 256 -> 0 <= a23 < 256 -> 0 <= a24 < 256 -> 0 <= a25 < 256 -> 0 <= a26 < 256 -> 0 <= a27 < 256 -> 0 <= a28 < 256 -> 0 <= a29 < 256 -> 0 <= a30 < 256 -> 0 <= a31 < 256 ->
+  fe_impl_set_b32_limit_k a0 a1 a2 a3 a4 a5 a6 a7 a8 a9 a10 a11 a12 a13 a14 a15 a16 a17 a18 a19 a20 a21 a22 a23 a24 a25 a26 a27 a28 a29 a30 a31 (fun r0 r1 r2 r3 r4 ret =>
+    (0 <= r0 < 2^52 /\ 0 <= r1 < 2^52 /\ 0 <= r2 < 2^52 /\ 0 <= r3 < 2^52 /\ 0 <= r4 < 2^48) /\
+    val5 r0 r1 r2 r3 r4 = be32 a0 a1 a2 a3 a4 a5 a6 a7 a8 a9 a10 a11 a12 a13 a14 a15 a16 a17 a18 a19 a20 a21 a22 a23 a24 a25 a26 a27 a28 a29 a30 a31 /\
+    ret = (if be32 a0 a1 a2 a3 a4 a5 a6 a7 a8 a9 a10 a11 a12 a13 a14 a15 a16 a17 a18 a19 a20 a21 a22 a23 a24 a25 a26 a27 a28 a29 a30 a31 <? P256 then 1 else 0)).
+Proof. exact Kernel.FieldSetB32.fe_set_b32_limit_correct. Qed.
+Print Assumptions fe_set_b32_limit_correct.
 (* Multiplication by a small integer, the value-preserving re-packing between 5x52 and 4x64 limbs, conditional negation *)
 Theorem fe_mul_int_correct : forall r0 r1 r2 r3 r4 a,
   0 <= a < 2^64 -> 0 <= r0 -> 0 <= r1 -> 0 <= r2 -> 0 <= r3 -> 0 <= r4 ->
